@@ -52,6 +52,11 @@ REFUSALS = {
     'rm_file:boot-file-with-hard-link': ('eltorito-link', 'rm_file', [], dict(iso_path='/BOOT.;1')),
     'rm_file:boot-file-by-its-link': ('eltorito-link', 'rm_file', [], dict(iso_path='/BOOTLNK.;1')),
     'rm_eltorito:twice': ('plain', 'rm_eltorito', [], {}),
+    'add_eltorito:load-size-too-big': ('plain', 'add_eltorito', ['/FOO.;1'], dict(boot_load_size=65536)),
+    'add_eltorito:load-size-negative': ('plain', 'add_eltorito', ['/FOO.;1'], dict(boot_load_size=-1)),
+    'add_eltorito:load-segment-too-big': ('plain', 'add_eltorito', ['/FOO.;1'], dict(boot_load_seg=65536)),
+    'add_symlink:empty-target': ('rr', 'add_symlink', [], dict(symlink_path='/SYM.;1', rr_symlink_name='sym', rr_path='')),
+    'add_symlink:empty-udf-target': ('udf', 'add_symlink', [], dict(udf_symlink_path='/sym', udf_target='')),
     # multi-namespace edits: a later namespace refuses after an earlier one was applied
     'add_fp:joliet-name-too-long': ('joliet', 'add_fp', ['FILE', 4], dict(iso_path='/BAR.;1', joliet_path='/' + 'x' * 65)),
     'add_fp:joliet-missing-parent': ('joliet', 'add_fp', ['FILE', 4], dict(iso_path='/BAR.;1', joliet_path='/nodir/bar')),
